@@ -158,9 +158,11 @@ def run_sched(ctx, pid, profiles, n_quick, n_thorough, extra=None, monitor_profi
                                 event_index=d["event_index"], event=d["event"], model=d["model"], impl=d["impl"]))
     mon_scheds = (corpus + scheds) if monitor_profiles is None else corpus + [s for s in scheds if s.get("profile") in monitor_profiles]
     failures = monitors.run_monitor(pid, mon_scheds, impl) if pid in monitors.MONITORS else []
-    if pid in ("C02", "C04", "C08"):
-        for s in impl_only:
+    for s in impl_only:
+        if s.get("monitor", "guard") == "guard" and pid in ("C02", "C04", "C08"):
             failures += monitors.mon_guard(monitors.Trace(s, impl[s["name"]]))
+        if s.get("monitor") == "window" and pid in s.get("props", []):
+            failures += monitors.mon_window(monitors.Trace(s, impl[s["name"]]))
     searched = 0
     if (divergences or not ctx["proof_ok"]) and not [f for f in failures if f["signature"] not in ctx.get("known_sigs", set())] and not ctx.get("replay"):
         # directed search on the implementation alone: the diverging schedules' neighbourhood plus a fresh larger sample
@@ -256,12 +258,37 @@ def stress2_extra(pid):
     return extra
 
 
+def release_extra(pid, inner=None):
+    """Thorough tier only: the same correspondence with the harness and /repo built in the release profile (overflow
+    wraps instead of panicking) against the model's wrapping branch (c_debug = false)."""
+    def extra(ctx, res, allsched, impl):
+        if inner:
+            inner(ctx, res, allsched, impl)
+        if ctx["tier"] != "thorough":
+            return
+        binary_rel, _ = build_harness("release")
+        scheds = gen.generate(ctx["seed"] + 31, 400, ["boundary", "general", "default_weights"])
+        for s in scheds:
+            s["cfg"]["debug"] = False
+            s["name"] = "rel_" + s["name"]
+        divs, impl_r, _ = corr.correspond(binary_rel, scheds, pid + "_release")
+        for d in divs:
+            res["divergences"].append(dict(kind="schedule-release-profile", component=d["component"], field=d["field"],
+                                           schedule=dict(name=d["schedule"]["name"], cfg=d["schedule"]["cfg"], events=d["schedule"]["events"][: d["event_index"] + 1]),
+                                           event_index=d["event_index"], event=d["event"], model=d["model"], impl=d["impl"]))
+        res["evaluations"] += sum(len(impl_r.get(s["name"], [])) for s in scheds)
+        res["traces"] += len(scheds)
+        res["extra"]["release_profile_schedules"] = len(scheds)
+        res["rule"] += "; thorough tier: 400 more schedules with harness and /repo built in the release profile against the model's wrapping arithmetic"
+    return extra
+
+
 def mk(pid, profiles, nq, nt, **kw):
     return lambda ctx: run_sched(ctx, pid, profiles, nq, nt, **kw)
 
 
 PROPS.update({
-    "C01": dict(module="C01", run=mk("C01", ["general", "default_weights", "ttl", "queue1", "evict", "evict2"], 260, 4000, extra=stress2_extra("C01")),
+    "C01": dict(module="C01", modules=["C01", "C01_ledger"], run=mk("C01", ["general", "default_weights", "ttl", "queue1", "evict", "evict2"], 260, 4000, extra=release_extra("C01", stress2_extra("C01"))),
                 components=["weights", "admission", "api", "queue_worker", "store", "ticker"],
                 assumptions=["schedule class proved: all phase-contiguous schedules (one call / command / sweep / batch at a time; calls may be unawaited, callers may be parked); finer interleavings of the worker's check-then-add with sweeper subtractions: ledger model (Ledger.v) once built",
                              "overflow-checking (debug) profile"]),
@@ -308,7 +335,7 @@ PROPS.update({
                 assumptions=["partial: 'shutdown() returns' and 'every acknowledgement completes' are proved as enabledness/progress facts of the model; that the worker and consumer threads keep being scheduled is assumed"]),
     "C15": dict(module="C15", run=mk("C15", ["reads", "evict", "general"], 250, 4000), components=["pool", "stats", "tinylfu", "api"],
                 assumptions=["partial: 'never blocks' is enabledness in the model; that crossbeam's select!{send, default} does not block is exercised with a gated (stalled) and an exited consumer, not proved"]),
-    "C17": dict(module="C17", run=mk("C17", ["boundary", "general", "ttl", "queue1"], 300, 5000), components=["panics", "roles", "api", "store", "weights", "admission", "ticker", "sketch", "tinylfu", "queue_worker", "time", "pool"],
+    "C17": dict(module="C17", run=mk("C17", ["boundary", "general", "ttl", "queue1"], 300, 5000, extra=release_extra("C17")), components=["panics", "roles", "api", "store", "weights", "admission", "ticker", "sketch", "tinylfu", "queue_worker", "time", "pool"],
                 assumptions=["partial: covers the panic sites the model represents (assert!/unwrap/expect/index operations/i64 overflow under the debug profile/SystemTime addition); allocation failure, thread spawn failure and panics inside dependencies are not modelled",
                              "documented preconditions: positive weights, a well-formed upsert, an upsert that turns into a put carries a value"]),
     "C16": dict(module="C16", run=mk("C16", ["general", "reads", "ttl", "evict"], 250, 4000), components=["stats", "stats.hit_ratio", "store", "weights", "queue_worker", "api", "admission"]),
